@@ -50,6 +50,19 @@ def gen_enum(rng, idx, weird=False):
     return "enum %sE%d { %s }%s" % (scope, idx, ", ".join(ms), rng.choice([";", "", " ;"])), names
 
 
+# directed enumerations (run first): every value depends on how the expression is grouped, so that printing an expression with
+# a parenthesis dropped, an operator changed or operands swapped changes a value the compilers compute
+DIRECTED = [
+    ("enum Layout { L_UNIT = 2, L_ROW = 3, L_TOTAL = 48, L_PER = L_TOTAL / (L_UNIT * L_ROW), L_NEXT, "
+     "L_RATIO = L_TOTAL / (L_ROW / L_UNIT), L_SCALE = L_UNIT * (L_ROW / L_UNIT), L_LAST };",
+     ["L_UNIT", "L_ROW", "L_TOTAL", "L_PER", "L_NEXT", "L_RATIO", "L_SCALE", "L_LAST"]),
+    ("enum class Tile { W = 5, H = 4, AREA = 100 / (W * H), MORE, DIFF = 100 - (W - H), NEG = -(W - H) * 2, SUM = (W + H) * (W - H), "
+     "MIX = 100 - W * H / (H - 2), AFTER };", ["W", "H", "AREA", "MORE", "DIFF", "NEG", "SUM", "MIX", "AFTER"]),
+    ("enum Deep { D_A = 7, D_B = 2, D_C = ((D_A - D_B) - (D_B - D_A)), D_D = D_A - (D_B - (D_A - D_B)), D_E = 100 / (D_A / D_B) / D_B, "
+     "D_F = 100 / ((D_A / D_B) / D_B + 1), D_G = +D_A - -D_B, D_H };", ["D_A", "D_B", "D_C", "D_D", "D_E", "D_F", "D_G", "D_H"]),
+]
+
+
 def gen_tokens_text(rng):
     alpha = ["a", "int", "const", "1", "12", "1.", ".5", "1e5", "1.5e-3", "e", "E", "+", "-", "*", "/", "(", ")", "::", ":", "...",
              "..", ".", "\"s\"", "'c'", "\"", "<", ">", "&", "~", "[", "]", "{", "}", ",", ";", "=", " ", "\t", "\n", "@", "#", "class",
@@ -265,7 +278,7 @@ def run(ctx):
             [gen_tokens_text(ctx.rng) for _ in range(n // 3)]
     cmp("Expr.check_expr", exprs, lambda s: "expr|" + enc(s), lambda s: impl_expr(declast, s))
     cmp("Expr.print_expr", exprs, lambda s: "printexpr|" + enc(s), lambda s: impl_printexpr(declast, todict, s))
-    enums = [gen_enum(ctx.rng, i, weird=(i % 4 == 0)) for i in range(n)]
+    enums = DIRECTED + [gen_enum(ctx.rng, i, weird=(i % 4 == 0)) for i in range(n)]
     # only texts whose first token is the enum keyword: other declarations belong to the Decl model (C09/C17)
     etxt = [e[0] for e in enums] + ["enum " + gen_tokens_text(ctx.rng) for _ in range(n // 3)]
     cmp("Expr.parse_enum", etxt, lambda s: "enum|" + enc(s), lambda s: impl_enum(declast, s))
